@@ -70,6 +70,16 @@ PROPS = {
         "rule": "cases = (rule under test in context | generated grammar) x input x configuration; non-trivial = invocations that "
                 "failed locally while rewind_mode::required was requested (the guard's antecedent), counted by TLC",
     },
+    "C06": {
+        "families": ["eol", "ctx", "core"],
+        "must_count": ["pos", "cases"],
+        "nontrivial_key": "pos",
+        "level": "at every event that carries a cursor (rule entry and exit, control hooks, action inputs, the end of the run, error "
+                 "positions) TLC evaluates byte/line/column against the consumed-prefix function PosOf on the recorded input, for all "
+                 "five end-of-line policies, eager and lazy tracking; rules consuming LF, CR and CRLF are tried at every offset",
+        "rule": "cases = rule under test x input over {a, LF, CR} x eol policy x tracking mode; non-trivial = cursor observations "
+                "compared with PosOf by TLC",
+    },
     "C01": {
         "families": ["core"],
         "level": L_DEN + "all depth<=1 grammars over the core operators and atoms plus a seeded sample of deeper, recursive "
